@@ -32,6 +32,24 @@ var (
 	sinkBool    [4]bool
 )
 
+// secretReader delivers the current secret (64 bytes) and then a fixed filler; its own control flow depends only on
+// how much has been read.
+type secretReader struct{ off int }
+
+func (r *secretReader) Read(p []byte) (int, error) {
+	for i := range p {
+		if r.off < len(Cur) {
+			p[i] = Cur[r.off]
+		} else {
+			p[i] = 0x42
+		}
+		r.off++
+	}
+	return len(p), nil
+}
+
+var seedFixed = [32]byte{1, 2, 3, 4, 5, 6, 7, 8, 9}
+
 type fixedReader struct{}
 
 func (fixedReader) Read(p []byte) (int, error) {
@@ -254,6 +272,51 @@ var Ops = map[string]func(){
 	"ecvrf.ProveWithAddedRandomness": func() {
 		pi, _ := ecvrf.ProveWithAddedRandomness(fixedReader{}, ed25519.NewKeyFromSeed(Cur[:32]), []byte("alpha"))
 		put(pi)
+	},
+	// the entropy stream is the secret: key generation and nonce sampling read it through the caller's io.Reader
+	"Scalar.SetRandom(secret entropy)": func() {
+		s, _ := scalar.New().SetRandom(&secretReader{})
+		s.ToBytes(Out[:32])
+	},
+	"RistrettoPoint.SetRandom(secret entropy)": func() {
+		p, _ := curve.NewRistrettoPoint().SetRandom(&secretReader{})
+		b, _ := p.MarshalBinary()
+		put(b)
+	},
+	"sr25519.GenerateSecretKey(secret entropy)": func() {
+		sk, _ := sr25519.GenerateSecretKey(&secretReader{})
+		b, _ := sk.MarshalBinary()
+		put(b)
+	},
+	"sr25519.GenerateKeyPair(secret entropy)": func() {
+		kp, _ := sr25519.GenerateKeyPair(&secretReader{})
+		b, _ := kp.PublicKey().MarshalBinary()
+		put(b)
+	},
+	"sr25519.GenerateMiniSecretKey(secret entropy)+ExpandUniform": func() {
+		msk, _ := sr25519.GenerateMiniSecretKey(&secretReader{})
+		b, _ := msk.ExpandUniform().MarshalBinary()
+		put(b)
+	},
+	"sr25519.KeyPair.Sign(secret witness entropy)": func() {
+		var msk sr25519.MiniSecretKey
+		copy(msk[:], seedFixed[:])
+		kp := msk.ExpandUniform().KeyPair()
+		sig, _ := kp.Sign(&secretReader{}, srCtx.NewTranscriptBytes(msgHello))
+		b, _ := sig.MarshalBinary()
+		put(b)
+	},
+	"ed25519.GenerateKey(secret entropy)": func() {
+		pub, _, _ := ed25519.GenerateKey(&secretReader{})
+		put(pub)
+	},
+	"x25519.GenerateKey(secret entropy)": func() {
+		pub, _, _ := x25519.GenerateKey(&secretReader{})
+		put(pub[:])
+	},
+	"ed25519.Sign(AddedRandomness, secret entropy)": func() {
+		sig, _ := otherPriv.Sign(&secretReader{}, msgHello, &ed25519.Options{AddedRandomness: true})
+		put(sig)
 	},
 	// more secret-handling entry points
 	"sr25519.NewSecretKeyFromEd25519Bytes+PublicKey": func() {
